@@ -103,6 +103,7 @@ struct E6 : Engine {
 				else if(x < 90 && npairs){ o["op"] = "ready"; o["p"] = (int)r.below(npairs); o["n"] = 1 + (int)r.below(50); }
 				else if(x < 93){ o["op"] = "sleep"; o["ms"] = (int)r.below(25); }
 				else if(x < 97){ o["op"] = "dev"; o["early"] = (int)r.below(3); o["dir2"] = (int)r.below(2); o["gap"] = (int)r.below(3); o["settle"] = (int)(r.below(3) != 0); o["xfer"] = r.below(2) ? (int)(1 + r.below(50)) : 0; o["attach"] = (int)(r.below(4) == 0); }   /* attach: the first device does not own its descriptor (attach()); close() must cancel its wait all the same, the descriptor is closed by the thread itself */   // a device owned by this thread: armed, closed by this thread, then a new device on the re-used descriptor number
+				else if(x == 98 && r.below(2) == 0){ o["op"] = "io_bad"; o["dir"] = (int)r.below(2); }   /* a wait armed on something that is no descriptor: the error is a completion like any other - once, on the loop thread */
 				else if(x == 99 && r.below(12) == 0){ o["op"] = "burst"; o["n"] = 700 + (int)r.below(700); o["keep"] = (int)r.below(3); }   /* hundreds of timers pending at once on one io_service (a busy server: one time-out per connection) */
 				else { o["op"] = "yield"; }
 				ops.push(o); }
@@ -274,6 +275,7 @@ struct E6 : Engine {
 					if(op == "post"){ int h = w.add("post"); w.h[h].posted_after_stop = w.stop_called; if(o.geti("throws")) srv.post(ThrowingFn(h)); else srv.post(Fn(h)); }
 					else if(op == "timer"){ int h = w.add("timer"); int64_t ms = std::max<int64_t>(-1000,std::min<int64_t>(o.geti("ms"),100000)); w.h[h].posted_after_stop = w.stop_called; w.h[h].deadline_us = simk::now_us() + ms*1000;
 						ptime at = ptime(w.h[h].deadline_us/1000000,(int)((w.h[h].deadline_us%1000000)*1000)); int id = srv.set_timer_event(at,Fn(h)); tids.push_back(id); thids.push_back(h); }
+					else if(op == "io_bad"){ int h = w.add("io_bad"); w.h[h].posted_after_stop = w.stop_called; srv.set_io_event(-1,o.geti("dir") ? aio::io_events::out : aio::io_events::in,Fn(h)); }
 					else if(op == "burst"){   /* many timers pending at once: every one gets an id of its own, and cancelling an id completes that wait and no other */
 						int n = (int)std::max<int64_t>(1,std::min<int64_t>(o.geti("n"),1600)); std::vector<int> ids,hids; std::set<int> seen; int64_t base = simk::now_us() + 3600LL*1000000;
 						{ simk::TsanIgnore ign; if(w.h.size() + (size_t)n + 200 > w.h.capacity()) n = 0; }
@@ -410,6 +412,7 @@ struct E6 : Engine {
 			if(r.kind == "io_in" && r.code == 0 && r.readable_at_call == 0) res.fail("io-success-without-event",nm + " reported readable but nothing was there");
 			if((r.kind == "io_in" || r.kind == "io_out") && r.code != 0 && !canceled && !(r.cat == aio::aio_error_cat.name() && r.code == aio::aio_error::select_failed)) res.fail("unexpected-error-code",nm + " got error " + std::to_string(r.code) + "/" + r.cat);
 			if(r.kind == "post" && r.code != 0) res.fail("unexpected-error-code",nm + " got an error code");
+			if(r.kind == "io_bad" && r.code == 0) res.fail("io-success-without-event",nm + ": a wait armed on descriptor -1 completed with success");
 			if(r.kind == "aaccept"){ if(r.code == 0 && r.want == 0) res.fail("accept-success-without-connection",nm + ": async_accept completed successfully but the target socket holds no connection");
 				if(r.code != 0 && !canceled && !r.closed_dev /* the acceptor was closed while this wait was pending: any error code is a legal completion then */) res.fail("unexpected-error-code",nm + ": async_accept handler got error " + std::to_string(r.code) + "/" + r.cat + " - the listening socket was never in error; a connection that is gone by the time accept() is called (would-block) is not an event"); }
 			if(r.kind == "dev_awrite"){ if(r.code != 0 || r.n != r.want) res.fail("short-async-write",nm + ": async_write on a fresh device completed with code " + std::to_string(r.code) + " after " + std::to_string(r.n) + " of " + std::to_string(r.want) + " bytes"); }
